@@ -117,6 +117,9 @@ type Session struct {
 	// Outer, when set, is applied to the wrapped target root before it is
 	// given to the browser (e.g. to put a nodeutil.Extend around it).
 	Outer func(n interface{}) interface{}
+	// OnBrowser, when set, is handed the *node.Browser over the target side
+	// right after it is created (e.g. to install triggers).
+	OnBrowser func(b interface{})
 	// FaultFilter, when set, says whether the kind applies to the event; a
 	// fault scheduled on an inapplicable callback degrades to FError.
 }
